@@ -490,6 +490,18 @@ class Calls(Exec):
             for key, T in self.rec_fields(v.name).items():
                 self.rec_store(st, v, key, self.make_fresh(st, parse_type(T), key))
             return
+        if '[*].' in mexpr:
+            lexpr, fld = mexpr.split('[*].')
+            v = self.ev1(self.parse_spec(lexpr), s)
+            region = self.elems_snapshot(st, v, node)
+            owner, T = self.field_info(type_str(v.elem), fld, node)
+            for j, sort in enumerate(slots(T)):
+                key = (owner, fld, j)
+                cur = self.harr(st, key, sort)
+                na = fresh(z3.ArraySort(IntS, sort), 'hv_' + fld)
+                self.elem_frame_axiom(st, region, na, cur)
+                self.hset(st, key, na)
+            return
         tree = self.parse_spec(mexpr)
         if isinstance(tree, ast.Attribute):
             v = self.ev1(tree.value, s)
